@@ -305,3 +305,38 @@ Definition run_case (c : case) : nat :=
       + (if restores_check vars p && negb restored then 4 else 0)
   end.
 Definition run_cases (cs : list case) : list nat := map run_case cs.
+
+(* ---------------- instrumented semantics: the os.environ operations an execution performs ---------------- *)
+
+Definition is_some {A} (o : option A) : bool := match o with Some _ => true | None => false end.
+
+Definition step_ev (i : instr) (st : state) : list ev :=
+  let '(e, sl) := st in
+  match i with
+  | SaveStrict v _ | SaveOpt v _ | ReadReq v => [EvGet v (is_some (e v))]
+  | Del v | Pop v => [EvDel v (is_some (e v))]
+  | SetC v _ => [EvSet v]
+  | Restore v s => match sl s with Some (Some _) => [EvSet v] | _ => [] end
+  | RestoreOpt v s | RestoreOptPop v s =>
+      match sl s with
+      | Some (Some _) => [EvSet v]
+      | Some None => [EvDel v (is_some (e v))]
+      | None => [] end
+  | Call _ => []
+  end.
+
+Fixpoint exec_ev (p : prog) (sc : sched) (st : state) : list ev :=
+  match p with
+  | Skip | Raise | Ret => []
+  | I i => step_ev i st
+  | Seq p q => let '(st1, o, sc1) := exec p sc st in
+               exec_ev p sc st ++ match o with N => exec_ev q sc1 st1 | _ => [] end
+  | Choice p q => let '(b, sc') := pop sc in if b then exec_ev p sc' st else exec_ev q sc' st
+  | TryFinally p q => let '(st1, o, sc1) := exec p sc st in exec_ev p sc st ++ exec_ev q sc1 st1
+  | TryExcept p q => let '(st1, o, sc1) := exec p sc st in
+                     exec_ev p sc st ++
+                     match o with
+                     | E => let '(b, sc2) := pop sc1 in if b then exec_ev q sc2 st1 else []
+                     | _ => [] end
+  | Scope p => exec_ev p sc st
+  end.
